@@ -7,6 +7,8 @@
 #include "pbt.hpp"
 #include <nstd/File.hpp>
 #include <string>
+#include <sys/resource.h>
+#include <signal.h>
 #include <vector>
 #include <map>
 #include <memory>
@@ -104,7 +106,7 @@ void pbt_generate(Rng& r, int size, Case& c) {
     else if (nm == "write" || nm == "writes") c.add(names[o], handle(), 0, 0, 0, rbytes(r, r.chance(10) ? 0 : 30));
     else if (nm == "read") c.add("read", handle(), (long)r.below(r.chance(20) ? 120 : 20));
     else if (nm == "seek") c.add("seek", handle(), r.range(-30, 60), (long)r.below(3));
-    else if (nm == "copy" || nm == "rename") c.add(names[o], name(), name(), (long)r.below(2));
+    else if (nm == "copy" || nm == "rename") c.add(names[o], name(), name(), (long)r.below(2), nm == "copy" && r.chance(30) ? (long)(1 + r.below(40)) : 0L);
     else if (nm == "unlink" || nm == "exists" || nm == "sreadall") c.add(names[o], name());
     else if (nm == "mkfile") c.add("mkfile", (long)r.below(NFLAT), 0, 0, 0, rbytes(r, 20));
     else if (nm == "mkdir") c.add("mkdir", (long)r.below(NFLAT));
@@ -324,8 +326,25 @@ void pbt_run(const Case& cs, Ctx& ctx) {
       bool destOpenable = t.flat && (!tn || (!tn->dir && !fie));   // the destination can be created / truncated
       if (sn && sn->dir && destOpenable && ctx.excluded("C19-copy-leaves-dest")) continue;
       if (sn && !sn->dir && sn == tn && !fie && ctx.excluded("C19-copy-self-truncates")) continue;
+      // injected fault: the copy runs under a file size limit below the source's size (as on a full disk or under a quota): the
+      // transfer stops short, so copy() must fail and must not leave an incomplete destination behind
+      long faultArg = op.a[3] < 0 ? -op.a[3] : op.a[3];
+      bool fault = faultArg > 0 && sn && !sn->dir && sn != tn && destOpenable && !sn->bytes.empty();
+      if (fault && tn) for (int i = 0; i < NH; ++i) if (h[i].node == tn) fault = false;   // (what an open handle on the destination sees then is not specified)
+      struct rlimit oldLim; getrlimit(RLIMIT_FSIZE, &oldLim);
+      if (fault) { struct rlimit lim = oldLim; lim.rlim_cur = (rlim_t)((faultArg - 1) % (long)sn->bytes.size()); signal(SIGXFSZ, SIG_IGN); setrlimit(RLIMIT_FSIZE, &lim); }
       bool got = File::copy(L(full(s)), L(full(t)), fie);
-      if (!sn) expectBool("copy", got, false, what + " with a missing source");
+      if (fault) {
+        setrlimit(RLIMIT_FSIZE, &oldLim);
+        ctx.label(tn ? "copy_fault_short_transfer_over_existing" : "copy_fault_short_transfer");
+        if (got) ctx.fail("result:copy", what + " returned true although the transfer was cut short by a file size limit");
+        failed("fail_copy");
+        // the destination is either gone or (if it existed) still the old file; never a new or partial file (verify() below)
+        struct stat st;
+        if (lstat(full(t).c_str(), &st) != 0) { if (tn) fs.erase(t.rel); }
+        else if (tn) { std::string c; readFile(full(t), c); if (c != tn->bytes) { tn->bytes = c; ctx.fail("fs-after-copy:content", "after the failed " + what + " the destination holds neither its old contents nor nothing: " + std::to_string(c.size()) + " bytes"); } }
+      }
+      else if (!sn) expectBool("copy", got, false, what + " with a missing source");
       else if (sn->dir) { expectBool("copy", got, false, what + " with a directory as source"); ctx.label("copy_dir_source"); }
       else if (sn == tn && !fie) {
         // copying a file onto itself: it may be refused or accepted, the contents must survive (checked below)
